@@ -46,6 +46,14 @@ func suffixItems(items []Item, suffix string, top bool) []Item {
 			break
 		}
 		if top && it.Kind == KOrg {
+			if len(it.Labels) > 0 {
+				// as for END: the labels stay, on an instruction of their own
+				c := Item{Kind: KInstr, Op: "DAT", A: Toks(N(0)), B: Toks(N(0))}
+				for _, l := range it.Labels {
+					c.Labels = append(c.Labels, l+suffix)
+				}
+				out = append(out, c)
+			}
 			continue
 		}
 		c := it
